@@ -158,6 +158,8 @@ def one_case(ctx: Ctx, stream: str, i: int, max_len: int, depth: int, force_patt
         ctx.count('skipped:' + type(ex).__name__)
         return
     enc.freeze()
+    # the expression the library built satisfies the hypothesis of reduce_sound_closed (decided by the driver)
+    ctx.in_domain(stream, i, esx, {'expr': sx(esx)[:3000]})
     reply = ctx.model.ask(['reduce', esx])
     status, red = safe(e.reduce)
     # reduce() is a function of the expression: the operand (and the caller's arrays inside it) is left as it was
